@@ -621,14 +621,34 @@ func checkSession(c *core.Case) ([]core.Violation, bool) {
 	if err := json.Unmarshal(c.Exp, &exp); err != nil {
 		panic(err)
 	}
-	text := in.Text
-	if text == "" {
-		text = renderLayout(in.Layout)
-	}
 	n := len(in.Ops)
 	if n == 0 || n > len(exp.After) {
 		return nil, false
 	}
+	if in.Text == "" {
+		// a generated layout is run in two renderings: compact, and with commented block lines set off by an empty line
+		vs, nt := sessionOnText(c, &in, renderLayout(in.Layout), exp.After)
+		if alt := renderLayoutOpt(in.Layout, true); alt != renderLayout(in.Layout) {
+			vs2, _ := sessionOnText(c, &in, alt, exp.After)
+			have := map[string]bool{}
+			for _, v := range vs {
+				have[v.Sig] = true
+			}
+			for _, v := range vs2 {
+				if !have[v.Sig] {
+					vs = append(vs, v)
+				}
+			}
+		}
+		return vs, nt
+	}
+	return sessionOnText(c, &in, in.Text, exp.After)
+}
+
+func sessionOnText(c *core.Case, inp *sessionIn, text string, after []sessionStep) ([]core.Violation, bool) {
+	in := *inp
+	n := len(in.Ops)
+	exp := struct{ After []sessionStep }{after}
 	// find the first prefix at which something goes wrong, so that the report names the operation responsible
 	// (the search goes on after the first finding: a divergence between structure and file, C15, at one
 	//  operation may become a wrong file, C08, only some operations later; each signature is reported once)
